@@ -1196,6 +1196,8 @@ MUTANTS = [
            "            calcHA2(algo, self.method, uri, qop, None),\n            algo,\n            nonce,\n            nc,\n            cnonce,\n            qop,\n        )\n\n        return expected == response\n\n\nclass DigestCredentialFactory",
            "            calcHA2(algo, self.method, uri, qop, None),\n            algo,\n            cnonce,\n            nc,\n            cnonce,\n            qop,\n        )\n\n        return expected == response\n\n\nclass DigestCredentialFactory",
            expect_rule="response/field-slots"),
+    # ---- round-3 shapes: the key decoded by a private classmethod that returns a pair; the rejection message as a private class constant
+    Mutant("classmethod-key-decoder-converts-the-wrong-exception", CRED, '        try:\n            key = base64.b64decode(opaqueParts[1])\n        except ValueError:\n            raise error.LoginFailed("Invalid response, invalid opaque value")\n        keyParts = key.split(b",")\n', '        key, keyParts = self._splitKey(opaqueParts[1])\n', more=[(CRED, "    def _verifyOpaque(", '    _BAD_OPAQUE = "Invalid response, invalid opaque value"\n\n    @classmethod\n    def _splitKey(cls, encoded):\n        try:\n            raw = base64.b64decode(encoded)\n        except TypeError:\n            raise error.LoginFailed(cls._BAD_OPAQUE)\n        return raw, raw.split(b",")\n\n    def _verifyOpaque(')]),
 ]
 SILENT = [
     Silent("rename-locals", _V, "        keyParts = key.split(b\",\")\n\n        if len(keyParts) != 3:", "        fields = key.split(b\",\")\n        keyParts = fields\n\n        if len(fields) != 3:"),
@@ -1234,4 +1236,5 @@ SILENT = [
            more=[(_V, "class DigestCredentialFactory:\n", "def _refusal(what):\n    return error.LoginFailed(\"Invalid response, \" + what)\n\n\nclass DigestCredentialFactory:\n")]),
     Silent("digest-fields-from-a-generator", DIGEST, "    m = algorithms[algo]()\n    m.update(pszMethod)\n    m.update(b\":\")\n    m.update(pszDigestUri)\n    if pszQop == b\"auth-int\":\n        m.update(b\":\")\n        m.update(pszHEntity)\n    return hexlify(m.digest())",
            "    def parts():\n        yield pszMethod\n        yield pszDigestUri\n        if pszQop == b\"auth-int\":\n            yield pszHEntity\n\n    m = algorithms[algo]()\n    first = True\n    for part in parts():\n        if not first:\n            m.update(b\":\")\n        m.update(part)\n        first = False\n    return hexlify(m.digest())"),
+    Silent("key-decoded-by-a-private-classmethod-with-a-constant-message", CRED, '        try:\n            key = base64.b64decode(opaqueParts[1])\n        except ValueError:\n            raise error.LoginFailed("Invalid response, invalid opaque value")\n        keyParts = key.split(b",")\n', '        key, keyParts = self._splitKey(opaqueParts[1])\n', more=[(CRED, "    def _verifyOpaque(", '    _BAD_OPAQUE = "Invalid response, invalid opaque value"\n\n    @classmethod\n    def _splitKey(cls, encoded):\n        try:\n            raw = base64.b64decode(encoded)\n        except ValueError:\n            raise error.LoginFailed(cls._BAD_OPAQUE)\n        return raw, raw.split(b",")\n\n    def _verifyOpaque(')]),
 ]
